@@ -4,7 +4,7 @@ mutant environment (tools/mutant_env.sh: a scratch worktree of /repo + a copy of
 in seeded/<id>/meta.json what was run and what the checks reported. /repo itself is never touched."""
 import json, os, re, subprocess, sys
 V = os.path.dirname(os.path.dirname(os.path.abspath(__file__)))
-M = "/var/tmp/mut"
+M = os.environ.get("MUT", "/var/tmp/mut")
 EXTRA = {"C09": ["C09", "C15"], "C15": ["C15", "C09"], "C14": ["C14", "C09"], "C02": ["C02", "C06"], "C06": ["C06", "C02"],
          "C10": ["C10", "C11"], "C11": ["C11", "C10"],
          "C05": ["C05", "C01", "C03", "C04", "C20"], "C01": ["C01", "C05", "C16", "C19"], "C03": ["C03", "C04", "C20"], "C04": ["C04", "C03"],
